@@ -61,31 +61,6 @@ def cbPoint : CbPc → Nat
   | .failed => 36
   | .gone => 39
 
-def seqBind (a : Option (FSys × List Seq)) (g : FSys → Option (FSys × List Seq)) : Option (FSys × List Seq) :=
-  match a with
-  | none => none
-  | some (f1, o1) =>
-    match g f1 with
-    | none => none
-    | some (f2, o2) => some (f2, o1 ++ o2)
-
-/-- One harness label = one or two statements of the statement-grained LTS. -/
-def sstep (T : Table) (f : FSys) : SLabel → Option (FSys × List Seq)
-  | .close => FSys.step T f .closeSig
-  | .read i => seqBind (FSys.step T f (.readRet i)) (fun f1 => FSys.step T f1 .main)
-  | .main =>
-    match f.mpc with
-    | .inRead => none
-    | .readDone _ => none
-    | _ => FSys.step T f .main
-  | .expire => FSys.step T f .expire
-  | .cb k =>
-    seqBind (FSys.step T f (.cb k)) (fun f1 =>
-      match f1.cbs[k]? with
-      | some (_, .failed) => FSys.step T f1 (.cb k)
-      | some (_, .stSet) => FSys.step T f1 (.cb k)
-      | _ => some (f1, []))
-
 /-- The statements of the LTS a harness label stands for. -/
 def expand (f : FSys) : SLabel → List FLabel
   | .close => [.closeSig]
@@ -97,6 +72,27 @@ def expand (f : FSys) : SLabel → List FLabel
     | some (g, .locked) => if g = f.escGen then [.cb k] else [.cb k, .cb k]
     | some (_, .stateSet) => [.cb k, .cb k]
     | _ => [.cb k]
+
+/-- `M` is a statement the main goroutine executes on its own: the return of the blocked read is `R`,
+    and the `Stop()` that follows it has no yield point of its own. -/
+def canRelease (f : FSys) : SLabel → Bool
+  | .main => match f.mpc with
+    | .inRead => false
+    | .readDone _ => false
+    | _ => true
+  | _ => true
+
+/-- One harness label = one or two statements of the statement-grained LTS. -/
+def sstep (T : Table) (f : FSys) (l : SLabel) : Option (FSys × List Seq) :=
+  if canRelease f l then FSys.run T f (expand f l) else none
+
+def seqBind (a : Option (FSys × List Seq)) (g : FSys → Option (FSys × List Seq)) : Option (FSys × List Seq) :=
+  match a with
+  | none => none
+  | some (f1, o1) =>
+    match g f1 with
+    | none => none
+    | some (f2, o2) => some (f2, o1 ++ o2)
 
 def srun (T : Table) : FSys → List SLabel → Option (FSys × List Seq)
   | f, [] => some (f, [])
